@@ -124,6 +124,13 @@ type Result struct {
 	// state record ended less than 8 bytes before a chunk boundary (finding
 	// C04/tail-at-chunk-start: such a database does not open, "bad state").
 	TailAtChunkStart bool
+	// CloseGap (reopen steps on heap storage, else -1): number of bytes
+	// between the end of the final state record and the end of its storage
+	// chunk (0 = the state ends the chunk; 1..7 = the shutdown marker could
+	// not follow it in the same chunk). Padded: the step padded the storage
+	// before Close to aim at a requested gap (Step.Pad).
+	CloseGap int
+	Padded   bool
 }
 
 // call runs fn and converts a panic into (message, isRuntimeError).
@@ -155,7 +162,7 @@ func (s *Session) Apply(st *Step) Result {
 	case KPersist:
 		return s.applyPersist()
 	case KReopen:
-		return s.applyReopen(st.Acts)
+		return s.applyReopen(st.Acts, st.Pad)
 	case KSleep:
 		if s.Sleep != nil {
 			s.Sleep(st.GapMs)
@@ -271,11 +278,15 @@ func (s *Session) applyPersist() Result {
 // applyReopen optionally leaves a transaction with uncommitted writes open,
 // closes the database cleanly and opens it again (check=true) with a new
 // checker/merger pipeline.
-func (s *Session) applyReopen(open []Action) Result {
+func (s *Session) applyReopen(open []Action, pad int) Result {
 	if len(open) > 0 {
 		if r := s.applyTran(open, "open"); r.Err != "" {
 			return r
 		}
+	}
+	padded := false
+	if h, ok := s.Opener.(heapOpener); ok && pad > 0 {
+		padded = s.padBeforeClose(h.chunk, pad-1)
 	}
 	if s.BeforeClose != nil {
 		s.BeforeClose()
@@ -306,10 +317,51 @@ func (s *Session) applyReopen(open []Action) Result {
 	s.W.Stats.DropSinceOpen = 0
 	s.W.Stats.PersistsSinceOpen = 0
 	off := db.GetState().Off
-	res := Result{Accepted: true, Off: off, NewState: off != s.LastOff}
+	res := Result{Accepted: true, Off: off, NewState: off != s.LastOff, CloseGap: -1, Padded: padded}
+	if h, ok := s.Opener.(heapOpener); ok {
+		end := off + uint64(db19.VerifStateLen)
+		res.CloseGap = int((uint64(h.chunk) - end%uint64(h.chunk)) % uint64(h.chunk))
+	}
 	s.LastOff = off
 	if s.OnState != nil {
 		s.OnState(off, true)
 	}
 	return res
+}
+
+// padBeforeClose prepares the class of finding C04/tail-at-chunk-start: it
+// persists what is pending (so that the closing persist has nothing but the
+// state record to write, unless a metadata chain is due for merging) and then
+// allocates filler so that a state record written next ends d bytes before
+// the end of its storage chunk. With d in 1..7 the shutdown marker does not
+// fit behind the state and starts the next chunk. The distance actually
+// achieved is reported by the reopen step (Result.CloseGap).
+func (s *Session) padBeforeClose(chunk, d int) bool {
+	ok := false
+	call(func() {
+		state := s.DB.Persist()
+		if state.Off != s.LastOff {
+			s.LastOff = state.Off
+			s.W.Stats.Persists++
+			s.W.Stats.PersistsSinceOpen++
+			s.W.MarkStateWritten()
+			if s.OnState != nil {
+				s.OnState(state.Off, false)
+			}
+		}
+		want := chunk - int(db19.VerifStateLen) - d // position in the chunk where the state must start
+		if want <= 0 {
+			return
+		}
+		pos := int(s.DB.Store.Size() % uint64(chunk))
+		if pos > want { // fill the rest of this chunk
+			s.DB.Store.Alloc(chunk - pos)
+			pos = 0
+		}
+		if want > pos {
+			s.DB.Store.Alloc(want - pos)
+		}
+		ok = true
+	})
+	return ok
 }
